@@ -23,8 +23,12 @@ def build(rng, facts, name, pair=None):
     for v, w in zip(vals, ws): b.kadd(rng.choice(parts), v, w)
     # merge in a random tree shape / order
     live = list(parts); args = []
+    if rng.random() < 0.3:              # a receiver that holds nothing when it absorbs its first argument (fresh, of the argument's kinds or of any)
+        kz = b.kinds[rng.choice(parts)] if rng.random() < 0.6 else (rng.choice(STORES), rng.choice(STORES), exact)
+        b.knew("pz", spec, kz[0], kz[1], exact); live.append("pz")
     while len(live) > 1:
         a = live.pop(rng.randrange(len(live))); c = live.pop(rng.randrange(len(live)))
+        if c == "pz" and len(args) == 0: a, c = c, a
         if rng.random() < 0.5:          # the receiver has been queried (its store may have reorganised itself) before it absorbs the argument
             b.emit(rng.choice(["q %s %s" % (a, f2h(rng.random())), "kforeach %s 0" % a, "kenc scratch %s 0" % a, "kobs " + a]))
         if rng.random() < 0.3:          # a non-consuming merge first: a copy of the receiver absorbs the argument, the receiver itself must not move
@@ -39,12 +43,16 @@ def build(rng, facts, name, pair=None):
         args.append((c, j0))
         if rng.random() < 0.5 and vals:
             # ... and stays unchanged when the receiver is written to afterwards (no shared memory); the same value goes to the single sketch
-            v, w = rng.choice(list(zip(vals, ws))); b.kadd(a, v, w); b.kadd("whole", v, w); b.emit("kobs " + c, ("same", j0))
+            v, w = rng.choice(list(zip(vals, ws)))
+            if b.vals[c] and rng.random() < 0.6: v = rng.choice(b.vals[c])[0]          # a value the argument holds: the same bin on both sides
+            b.kadd(a, v, w); b.kadd("whole", v, w); b.emit("kobs " + c, ("same", j0))
         live.append(a)
     r = live[0]
     for c, j0 in args: b.emit("kobs " + c, ("same", j0))
     if rng.random() < 0.3:                              # merging an empty sketch is a no-op
-        b.knew("e", spec, rng.choice(STORES), rng.choice(STORES), exact); j0 = b.emit("kobs " + r); b.kmerge(r, "e"); b.emit("kobs " + r, ("same", j0))
+        b.knew("e", spec, rng.choice(STORES), rng.choice(STORES), exact); j0 = b.emit("kobs " + r)
+        if rng.random() < 0.5: b.kadd("e", 1e6, 0.0); b.kadd("e", -1e6, 0.0)          # weight 0: accepted, and the sketch still holds nothing
+        b.kmerge(r, "e"); b.emit("kobs " + r, ("same", j0))
     # the merged sketch and the single sketch are observationally identical: same bins (the store kinds differ, the content may not)
     jw = b.emit("kobs whole"); b.emit("kobs " + r, ("same", jw))
     if vals:
